@@ -1,6 +1,296 @@
 package main
 
-import "strings"
+import (
+	"fmt"
+	"go/ast"
+	"go/printer"
+	"go/token"
+	"strings"
+)
 
-// extra: further generated tables (server decision table etc.) are added here.
-func extra(repo string, b *strings.Builder) {}
+// Decision paths: every path from the entry of a function to a `return`, as the list of branch
+// conditions taken.  Supported statements: if / else-if / else, switch on an identifier with constant
+// cases (an empty case falls out of the switch), return, and expression statements without control
+// flow (ignored).  Anything else makes the path end in `.other "<source>"`.
+
+func src(n ast.Node) string {
+	var b strings.Builder
+	_ = printer.Fprint(&b, fset, n)
+	return strings.Join(strings.Fields(b.String()), " ")
+}
+
+func leanStr(s string) string { return fmt.Sprintf("%q", s) }
+
+func condOf(e ast.Expr) string {
+	switch x := e.(type) {
+	case *ast.ParenExpr:
+		return condOf(x.X)
+	case *ast.UnaryExpr:
+		if x.Op == token.NOT {
+			return "(.not " + condOf(x.X) + ")"
+		}
+	case *ast.BinaryExpr:
+		switch x.Op {
+		case token.LAND:
+			return "(.and " + condOf(x.X) + " " + condOf(x.Y) + ")"
+		case token.LOR:
+			return "(.or " + condOf(x.X) + " " + condOf(x.Y) + ")"
+		case token.EQL, token.NEQ:
+			l, r := src(x.X), src(x.Y)
+			pos := x.Op == token.EQL
+			wrap := func(s string) string {
+				if pos {
+					return s
+				}
+				return "(.not " + s + ")"
+			}
+			if l == "code" && strings.HasPrefix(r, "case") {
+				return wrap("(.codeIs " + leanStr(strings.TrimPrefix(r, "case")) + ")")
+			}
+			if l == "its.datatypeDoc" && r == "nil" {
+				return wrap(".docNil")
+			}
+			if (l == "its.datatypeDoc.DUID" && r == "its.DUID") || (r == "its.datatypeDoc.DUID" && l == "its.DUID") {
+				if pos {
+					return "(.not .duidDiffers)"
+				}
+				return ".duidDiffers"
+			}
+		case token.GTR:
+			if src(x.X) == "len(its.gotPushPullPack.Operations)" && src(x.Y) == "0" {
+				return ".hasOps"
+			}
+		}
+	case *ast.CallExpr:
+		switch src(x) {
+		case "its.gotOption.HasCreateBit()":
+			return ".createBit"
+		case "its.gotOption.HasSubscribeBit()":
+			return ".subscribeBit"
+		}
+	case *ast.SelectorExpr:
+		if src(x) == "its.isReadOnly" {
+			return ".readOnly"
+		}
+	}
+	return "(.other " + leanStr(src(e)) + ")"
+}
+
+func retOf(r *ast.ReturnStmt) string {
+	if len(r.Results) != 1 {
+		return "(.other " + leanStr(src(r)) + ")"
+	}
+	s := src(r.Results[0])
+	switch {
+	case s == "nil":
+		return ".ok"
+	case s == "its.createDatatype()":
+		return ".create"
+	case s == "its.subscribeDatatype()":
+		return ".subscribe"
+	case s == "its.initClientInfoWithDatatypeDoc()":
+		return ".init"
+	case strings.HasPrefix(s, "errors.") && strings.Contains(s, ".New("):
+		name := strings.TrimPrefix(s[:strings.Index(s, ".New(")], "errors.")
+		return "(.err " + leanStr(name) + ")"
+	}
+	return "(.other " + leanStr(s) + ")"
+}
+
+type dpath struct {
+	conds []string
+	ret   string
+}
+
+func with(conds []string, c string, v bool) []string {
+	out := append([]string{}, conds...)
+	return append(out, fmt.Sprintf("(%s, %v)", c, v))
+}
+
+// walk enumerates the paths through stmts followed by the continuation rest
+func walk(stmts []ast.Stmt, conds []string, out *[]dpath, fallOff string) {
+	if len(stmts) == 0 {
+		*out = append(*out, dpath{conds, fallOff})
+		return
+	}
+	st, rest := stmts[0], stmts[1:]
+	switch x := st.(type) {
+	case *ast.ReturnStmt:
+		*out = append(*out, dpath{conds, retOf(x)})
+	case *ast.ExprStmt, *ast.AssignStmt, *ast.IncDecStmt, *ast.EmptyStmt:
+		walk(rest, conds, out, fallOff)
+	case *ast.BlockStmt:
+		walk(append(append([]ast.Stmt{}, x.List...), rest...), conds, out, fallOff)
+	case *ast.IfStmt:
+		if x.Init != nil {
+			*out = append(*out, dpath{conds, "(.other " + leanStr(src(x.Init)) + ")"})
+			return
+		}
+		c := condOf(x.Cond)
+		walk(append(append([]ast.Stmt{}, x.Body.List...), rest...), with(conds, c, true), out, fallOff)
+		if x.Else == nil {
+			walk(rest, with(conds, c, false), out, fallOff)
+		} else {
+			walk(append([]ast.Stmt{x.Else}, rest...), with(conds, c, false), out, fallOff)
+		}
+	case *ast.SwitchStmt:
+		tag := ""
+		if x.Tag != nil {
+			tag = src(x.Tag)
+		}
+		if x.Init != nil || tag != "code" {
+			*out = append(*out, dpath{conds, "(.other " + leanStr("switch "+tag) + ")"})
+			return
+		}
+		neg := conds
+		var dflt *ast.CaseClause
+		for _, cc := range x.Body.List {
+			cl := cc.(*ast.CaseClause)
+			if cl.List == nil {
+				dflt = cl
+				continue
+			}
+			c := ""
+			for i, e := range cl.List {
+				a := "(.codeIs " + leanStr(strings.TrimPrefix(src(e), "case")) + ")"
+				if i == 0 {
+					c = a
+				} else {
+					c = "(.or " + c + " " + a + ")"
+				}
+			}
+			walk(append(append([]ast.Stmt{}, cl.Body...), rest...), with(neg, c, true), out, fallOff)
+			neg = with(neg, c, false)
+		}
+		if dflt != nil {
+			walk(append(append([]ast.Stmt{}, dflt.Body...), rest...), neg, out, fallOff)
+		} else {
+			walk(rest, neg, out, fallOff)
+		}
+	default:
+		*out = append(*out, dpath{conds, "(.other " + leanStr(src(st)) + ")"})
+	}
+}
+
+func decisionPaths(repo, rel, recv, name string) string {
+	fd := method(parse(repo, rel), recv, name)
+	if fd == nil || fd.Body == nil {
+		problems = append(problems, rel+": "+name+" not found")
+		return "[]"
+	}
+	var ps []dpath
+	walk(fd.Body.List, nil, &ps, "(.other \"falls off the end\")")
+	var out []string
+	for _, p := range ps {
+		if strings.Contains(p.ret, ".other") || strings.Contains(strings.Join(p.conds, " "), ".other") {
+			problems = append(problems, fmt.Sprintf("%s: %s: path with an untranslated construct: %s => %s", rel, name, strings.Join(p.conds, " ∧ "), p.ret))
+		}
+		out = append(out, fmt.Sprintf("⟨[%s], %s⟩", strings.Join(p.conds, ", "), p.ret))
+	}
+	return "[\n  " + strings.Join(out, ",\n  ") + "]"
+}
+
+func extra(repo string, b *strings.Builder) {
+	const f = "server/service/service_pushpull_datatype.go"
+	fmt.Fprintf(b, "/-- decision paths of PushPullHandler.processSubscribeOrCreate (%s) -/\ndef dispatchPaths : List DPath := %s\n\n", f, decisionPaths(repo, f, "PushPullHandler", "processSubscribeOrCreate"))
+	fmt.Fprintf(b, "/-- decision paths of PushPullHandler.validatePushPullPack -/\ndef validatePaths : List DPath := %s\n\n", decisionPaths(repo, f, "PushPullHandler", "validatePushPullPack"))
+	fmt.Fprintf(b, "/-- guards of the realtime path of the client's DatatypeManager (client/pkg/internal/managers/datatype.go) -/\ndef rtFacts : RtFacts := %s\n\n", rtFacts(repo))
+}
+
+// ---- realtime manager facts (client/pkg/internal/managers/datatype.go) ----
+
+func containsCall(n ast.Node, text string) bool {
+	found := false
+	ast.Inspect(n, func(x ast.Node) bool {
+		if c, ok := x.(*ast.CallExpr); ok && strings.Contains(src(c.Fun), text) {
+			found = true
+		}
+		return !found
+	})
+	return found
+}
+
+func rtFacts(repo string) string {
+	const rel = "client/pkg/internal/managers/datatype.go"
+	f := parse(repo, rel)
+	b := func(v bool) string {
+		if v {
+			return "true"
+		}
+		return "false"
+	}
+	ownFilter, needPull, notifySema, tryAcq, rechecks, async := false, false, false, false, false, false
+	// ReceiveNotification: first statement `if its.ctx.Client.CUID == notification.CUID { ...; return }`
+	if fd := method(f, "DatatypeManager", "ReceiveNotification"); fd != nil && fd.Body != nil && len(fd.Body.List) > 0 {
+		if is, ok := fd.Body.List[0].(*ast.IfStmt); ok && is.Else == nil {
+			c := src(is.Cond)
+			if (c == "its.ctx.Client.CUID == notification.CUID" || c == "notification.CUID == its.ctx.Client.CUID") && len(is.Body.List) > 0 {
+				if _, ok := is.Body.List[len(is.Body.List)-1].(*ast.ReturnStmt); ok {
+					ownFilter = true
+				}
+			}
+		}
+		if containsCall(fd, "sema.") {
+			notifySema = true
+		}
+	} else {
+		problems = append(problems, rel+": ReceiveNotification not found")
+	}
+	// syncIfNeedPull: `if data.NeedPull(sseq) { ... return its.sync(data) }; return nil`
+	if fd := method(f, "DatatypeManager", "syncIfNeedPull"); fd != nil && fd.Body != nil {
+		for _, st := range fd.Body.List {
+			if is, ok := st.(*ast.IfStmt); ok && src(is.Cond) == "data.NeedPull(sseq)" && containsCall(is.Body, "its.sync") {
+				needPull = true
+			}
+		}
+		if containsCall(fd, "sema.") {
+			notifySema = true
+		}
+		// a sync outside the NeedPull guard would make the guard void
+		for _, st := range fd.Body.List {
+			if _, ok := st.(*ast.IfStmt); !ok && containsCall(st, "its.sync") {
+				needPull = false
+			}
+		}
+	} else {
+		problems = append(problems, rel+": syncIfNeedPull not found")
+	}
+	// sync (used by both paths) must not touch the semaphore itself
+	if fd := method(f, "DatatypeManager", "sync"); fd != nil && containsCall(fd, "sema.") {
+		notifySema = true
+	}
+	// DeliverTransaction: realtime → go func(){ if !TryAcquire {return}; defer{Release; if NeedPush {DeliverTransaction}}; sync }()
+	if fd := method(f, "DatatypeManager", "DeliverTransaction"); fd != nil && fd.Body != nil {
+		ast.Inspect(fd, func(x ast.Node) bool {
+			switch n := x.(type) {
+			case *ast.GoStmt:
+				async = true
+			case *ast.IfStmt:
+				if src(n.Cond) == "!its.sema.TryAcquire(1)" && len(n.Body.List) > 0 {
+					if _, ok := n.Body.List[len(n.Body.List)-1].(*ast.ReturnStmt); ok {
+						tryAcq = true
+					}
+				}
+			case *ast.DeferStmt:
+				rel, re := false, false
+				ast.Inspect(n, func(y ast.Node) bool {
+					if c, ok := y.(*ast.CallExpr); ok && src(c.Fun) == "its.sema.Release" {
+						rel = true
+					}
+					if is, ok := y.(*ast.IfStmt); ok && src(is.Cond) == "wired.NeedPush()" && containsCall(is.Body, "its.DeliverTransaction") {
+						re = true
+					}
+					return true
+				})
+				if rel && re {
+					rechecks = true
+				}
+			}
+			return true
+		})
+	} else {
+		problems = append(problems, rel+": DeliverTransaction not found")
+	}
+	return fmt.Sprintf("{ ownFilter := %s, needPullGuard := %s, notifySyncTakesSema := %s, deliverTryAcquire := %s, deliverRechecks := %s, deliverAsync := %s }",
+		b(ownFilter), b(needPull), b(notifySema), b(tryAcq), b(rechecks), b(async))
+}
